@@ -1145,6 +1145,20 @@ impl<T: TraceStorage> ChainProcess<T> {
                         .init_position(&mut rng, &mut initval)
                         .context("Failed to generate a new initial position")?;
                     if let Err(err) = sampler.set_position(&initval) {
+                        // Only bad starting points are retried. An unrecoverable error of
+                        // the density stops sampling, as documented for `LogpError`.
+                        let unrecoverable = match err.downcast_ref::<crate::NutsError>() {
+                            Some(
+                                crate::NutsError::LogpFailure(inner)
+                                | crate::NutsError::BadInitGrad(inner),
+                            ) => inner
+                                .downcast_ref::<<M::Math<'model> as Math>::LogpErr>()
+                                .is_some_and(|e| !crate::math::LogpError::is_recoverable(e)),
+                            _ => false,
+                        };
+                        if unrecoverable {
+                            return Err(err);
+                        }
                         error = Some(err);
                         continue;
                     }
